@@ -200,7 +200,16 @@ def r17c(run):
                           [unparse(e) for e in c.args[1].elts] == ["annotation", "constraints"] for c in sd)
     run.check("R17c", g, "a pending reference is stored together with its constraints", ok, construct="pending entry shape",
               message="register_forward_ref does not store (annotation, constraints)")
-    ok = bool(sd) and all("forward_key" in unparse(c.args[0]) and "__forward_arg__" in unparse(c.args[0]) for c in sd)
+    def _key_text(c):
+        t = unparse(c.args[0])
+        if isinstance(c.args[0], ast.Name):
+            ga = analysis(g)
+            for n in ga.cfg.nodes:
+                if n.kind == "stmt" and isinstance(n.ast, (ast.Assign, ast.AugAssign)) and unparse(
+                        n.ast.targets[0] if isinstance(n.ast, ast.Assign) else n.ast.target) == c.args[0].id:
+                    t += " " + unparse(n.ast.value)
+        return t
+    ok = bool(sd) and all("forward_key" in _key_text(c) and "__forward_arg__" in _key_text(c) for c in sd)
     run.check("R17c", g, "pending references are keyed per field (so that one name used twice keeps both constraint sets)",
               ok, construct="pending key", message="register_forward_ref no longer keys by `$forward_key`",
               necessity="a: 'T' = Field(gt=1); b: 'T' = Field(gt=2) would share one pending entry")
@@ -328,8 +337,39 @@ def r17g(run):
                                 "class parses its entries with the first module's Item", node=c)
 
 
+def r17h(run):
+    """the pending table never loses a reference object: a key that several objects can share (the bare name) is
+    disambiguated by the identity of what is stored under it before the entry is written"""
+    g = run.repo.func("utype.parser.rule", "register_forward_ref")
+    ga = analysis(g)
+    ann = g.params[0]
+    sd = [(n, c) for n, c in ga.all_calls() if call_attr(c) in ("setdefault",) and "forward_refs" in unparse(c.func.value)]
+    st = [(n, n.ast) for n in ga.cfg.nodes if n.kind == "stmt" and isinstance(n.ast, ast.Assign)
+          and isinstance(n.ast.targets[0], ast.Subscript) and "forward_refs" in unparse(n.ast.targets[0].value)]
+    run.floor("R17h", "pending-table stores", len(sd) + len(st), 1)
+    for n, c in sd:
+        # setdefault keeps the *old* entry when the key exists: fine only if an identity test against the stored
+        # object (or an identity-based key) separates distinct reference objects of one name
+        ident = False
+        for m in ga.cfg.nodes:
+            if m.kind == "test" and ga.cfg.can_reach(m, n) and "forward_refs" in unparse(m.ast):
+                for x in ast.walk(m.ast):
+                    if isinstance(x, ast.Compare) and isinstance(x.ops[0], (ast.Is, ast.IsNot)) and ann in names_in(x):
+                        ident = True
+        keytxt = unparse(c.args[0]) if c.args else ""
+        if "id(" in keytxt:
+            ident = True
+        run.check("R17h", g, "distinct reference objects of one name get distinct pending entries", ident,
+                  construct="pending entries collide on the reference's name",
+                  message=f"register_forward_ref: `{unparse(c)[:70]}` keeps whatever is already stored under the key; the key "
+                          f"of a nested reference is its bare name, so a second reference object of the same name is "
+                          f"never entered and never evaluated",
+                  necessity="class A: one: Optional['B']; many: List['B'] (B defined later): A(...) fails with "
+                            "ForwardRef('B') not evaluated, while the same class written after B works", node=c)
+
+
 def check(run):
-    run.rules_run += ["R17a", "R17b", "R17c", "R17d", "R17e", "R17f", "R17g"]
+    run.rules_run += ["R17a", "R17b", "R17c", "R17d", "R17e", "R17f", "R17g", "R17h"]
     run.explain("C17 (resolution-before-use; equivalence with the direct declaration is value-level and undecided): "
                 "(R17a) resolve_forward_refs unconditionally dominates parse_data / get_params at all five entries; "
                 "(R17b) after a resolution every field (input and output type), the addition type, *args and return "
@@ -344,3 +384,4 @@ def check(run):
     r17e(run)
     r17f(run)
     r17g(run)
+    r17h(run)
